@@ -1,1 +1,89 @@
-/-! # C03 — property theorems (to be filled in) -/
+import JokerVerif.Lemmas.KernelReal
+import JokerVerif.Props.C01
+/-!
+# C03 — linear parameters are drawn from the exact conditional posterior
+
+The sampler hands `(a, A)` to numpy's `multivariate_normal`; that numpy then returns independent `N(a, A)` draws is
+numpy's contract (trusted base).  What is proved: the `(a, A)` the kernel computes are the conditional-posterior
+parameters, built from the *same* jitter-inflated covariance and the *same* prior slots as the marginal likelihood,
+and that `N(a, A)` is exactly the conditional posterior of the linear parameters.
+-/
+open Matrix
+
+namespace Kernel
+
+section Field
+variable {α : Type} [Field α] {n k : Nat}
+
+/-- `A = (Λ⁻¹ + Mᵀ C_s⁻¹ M)⁻¹` and `a = A (Λ⁻¹ μ + Mᵀ C_s⁻¹ y)` -/
+theorem post_mean_cov (x : KIn n k α) :
+    (kA x).toM = (diagonal (fun j => (vfun x.lam j)⁻¹) + x.M.toMᵀ * diagonal (cs x) * x.M.toM)⁻¹ ∧
+    vfun (ka x) = (kA x).toM *ᵥ
+      (diagonal (fun j => (vfun x.lam j)⁻¹) *ᵥ vfun x.mu + x.M.toMᵀ *ᵥ (diagonal (cs x) *ᵥ vfun x.y)) := by
+  constructor
+  · rw [kA_toM, kAinv_toM]
+  · rw [ka_fun, kA_toM]
+
+/-- `a` solves the linear system the code hands to `dsysv`: `A⁻¹ a = Λ⁻¹ μ + Mᵀ C_s⁻¹ y` -/
+theorem post_mean_solves (x : KIn n k α) (h : Valid x) :
+    (kAinv x).toM *ᵥ vfun (ka x) =
+      diagonal (fun j => (vfun x.lam j)⁻¹) *ᵥ vfun x.mu + x.M.toMᵀ *ᵥ (diagonal (cs x) *ᵥ vfun x.y) := by
+  rw [ka_fun, mulVec_mulVec, Matrix.mul_nonsing_inv _ h.unit, one_mulVec]
+
+/-- the posterior and the marginal likelihood use one and the same `(μ, Λ, C_s)`: the `A` that is the posterior
+covariance is the very matrix inside the Woodbury form of `B⁻¹` used for `χ²`, and its inverse is the matrix
+whose determinant enters `det B` -/
+theorem post_same_prior_as_marginal (x : KIn n k α) :
+    (kBinv x).toM = diagonal (cs x) - diagonal (cs x) * x.M.toM * (kA x).toM * x.M.toMᵀ * diagonal (cs x) ∧
+    kdetFast x = (∏ i : Fin n, (cs x i)⁻¹) * (∏ j : Fin k, vfun x.lam j) * ((kA x).toM)⁻¹.det ∨
+      ¬ IsUnit (kAinv x).toM.det := by
+  by_cases hu : IsUnit (kAinv x).toM.det
+  · left
+    refine ⟨kBinv_toM x, ?_⟩
+    rw [kA_toM, Matrix.nonsing_inv_nonsing_inv _ hu]
+    rfl
+  · right; exact hu
+
+omit [Field α] in
+/-- output layout: every emitted row is the unchanged nonlinear block followed by one draw, `nLinear`
+consecutive rows per sample, in draw order -/
+theorem emit_layout (theta : List α) (draws : List (List α)) :
+    (emitRows theta draws).length = draws.length ∧
+    ∀ r (hr : r < draws.length), (emitRows theta draws)[r]? = some (theta ++ draws[r]) := by
+  refine ⟨by simp [emitRows], ?_⟩
+  intro r hr
+  simp [emitRows, hr]
+
+omit [Field α] in
+theorem emit_row_split (theta draw : List α) :
+    (theta ++ draw).take theta.length = theta ∧ (theta ++ draw).drop theta.length = draw := by
+  simp
+
+end Field
+
+noncomputable section
+variable {n k : ℕ}
+
+/-- `N(a, A)` is exactly the conditional posterior of the linear parameters: as a function of `x`,
+`ln p(y | θ, x) + ln p(x | θ) − ln N(x | a, A)` is constant (and equals the marginal likelihood) -/
+theorem post_is_conditional
+    (M : Matrix (Fin n) (Fin k) ℝ) (y : Fin n → ℝ) (v : Fin n → ℝ) (mu lam : Fin k → ℝ)
+    (hv : ∀ i, 0 < v i) (hl : ∀ j, 0 < lam j) (x₁ x₂ : Fin k → ℝ) :
+    let Cs := diagonal v
+    let L := diagonal lam
+    let A := (L⁻¹ + Mᵀ * Cs⁻¹ * M)⁻¹
+    let a := A *ᵥ (L⁻¹ *ᵥ mu + Mᵀ *ᵥ (Cs⁻¹ *ᵥ y))
+    lnN y (M *ᵥ x₁) Cs + lnN x₁ mu L - lnN x₁ a A = lnN y (M *ᵥ x₂) Cs + lnN x₂ mu L - lnN x₂ a A := by
+  intro Cs L A a
+  have h1 := marginalisation_identity M y v mu lam x₁ hv hl
+  have h2 := marginalisation_identity M y v mu lam x₂ hv hl
+  simp only at h1 h2
+  linarith
+
+end
+
+-- non-vacuity: on the concrete input of C01 the posterior parameters evaluate and solve the system
+example : (kAinv exIn).toM *ᵥ vfun (ka exIn) = vfun (krhs exIn) := by decide +kernel
+example : emitRows [1, 2] [[3], [4]] = [[1, 2, 3], [1, 2, 4]] := by decide
+
+end Kernel
